@@ -107,7 +107,7 @@ def sorted_violation(rows_keys, keys):
 class Check:
     id = PROP
     level = "exploration"
-    cases = {"quick": 2500, "thorough": 100000}
+    cases = {"quick": 10000, "thorough": 120000}
     rule = ("case = (tree with ties, sizes 9/10/100/1000, equal names in different directories, mtimes across days, overlaid uid/gid/nlink) x (1-3 ORDER BY keys over string/numeric/date columns and "
             "integer expressions, asc/desc, positional or explicit, selected or not, optional WHERE) x E (arrival order class incl. key-ascending/key-descending, DT_UNKNOWN, inode renumbering, hash seed). "
             "Each case = unordered run + ordered run of the same world and E. Non-trivial = a non-default environment choice reached fselect; distinct = distinct event-log signature.")
